@@ -3928,6 +3928,12 @@ static Token *global_variable(Token *tok, Type *basety, VarAttr *attr) {
     // says extern (C11 6.9.2p1).
     var->is_definition = !attr->is_extern || equal(tok, "=");
     var->is_static = attr->is_static;
+
+    // 'extern' keeps the internal linkage of a visible earlier
+    // declaration of the object (C11 6.2.2p4).
+    if (attr->is_extern && prev && prev->var && !prev->var->is_function &&
+        !prev->var->is_local && !prev->var->owner && prev->var->is_static)
+      var->is_static = true;
     var->is_tls = attr->is_tls;
     if (attr->align)
       var->align = attr->align;
